@@ -471,6 +471,13 @@ def l2_campaign(res, pid, ntraces, length, profile, project=None, traces=None, o
             rp["minimal_history"] = small.describe()["events"]
         res.violation("correspondence model vs implementation differs (%d of %d traces), first at step %d of %s: %s" % (
             len(mism), len(traces), d["k"], t.id, d["what"]), rp, found=False)
+    if pid != "C05" and traces:
+        # the extraction and the driver, for the handlers this property exercises: a few of the histories are also run by Coq's own
+        # evaluator on the compiled theories and compared step by step with what the extracted program printed (C05 does it on its own)
+        try:
+            kernel_crosscheck(res, pid, traces, model, 4 if res.tier == "quick" else 24)
+        except Exception as ex:
+            res.coverage["evaluated_inside_coq"] = {"histories": 0, "error": str(ex)[:300]}
     return {"traces": len(traces), "steps": steps, "mismatches": len(mism),
             "summary": {"traces": len(traces), "steps": steps, "mismatching_traces": len(mism), "suspects_rerun": retried,
                         "verbs": dict(verbs.most_common(40)), "reply_codes": dict(codes.most_common(60))},
@@ -1088,7 +1095,22 @@ def check_C01(res):
     sweep = msg_sweep(res)
     n = 150 if res.tier == "quick" else 2500
     # the audience of a status-prefixed target is read from the channel's rank lists: they must mirror the members' flags after every step
-    r = l2_campaign(res, "C01", n, 45, msg_profile(), traces=sweep + msg_leave_traces(), oracle=lambda t, st: msg_oracle(t, st) + inv_oracle(t, st))
+    extra = []
+    for k2, line in enumerate(["JOIN #old,#old,#fresh", "JOIN #old,#fresh,#old,#fresh2"]):
+        t = Trace("c01-join-repeat-%d" % k2, Config())
+        for c, nk in enumerate(["alice", "bob", "carol", "dave"]):
+            t.register(c, nk)
+        t.line(0, "JOIN #old")
+        t.line(1, "JOIN #old")
+        t.line(0, "MODE #old +n")
+        t.line(2, line)
+        t.line(0, "PRIVMSG #old :from the founder")
+        t.line(2, "PRIVMSG #old,#fresh :from the joiner")
+        t.line(1, "NOTICE #old :from a member")
+        t.line(3, "PRIVMSG #old :from outside (+n)")
+        extra.append(t)
+    # the audience is the channel's membership: who may be in it is decided by JOIN's rule
+    r = l2_campaign(res, "C01", n, 45, msg_profile(), traces=sweep + msg_leave_traces() + extra, oracle=lambda t, st: msg_oracle(t, st) + inv_oracle(t, st) + join_oracle(t, st))
     res.coverage.update({
         "evaluations": r["steps"], "distinct_nontrivial": msg_distinct(r),
         "rule": "sweep: all 32 status-prefix subsets x 4 senders (founder+voice, half-op+voice, plain member, outsider with ban exception) on a preconfigured channel whose "
@@ -1122,7 +1144,32 @@ def check_C10(res):
     prof = msg_profile()
     prof["weights"].update(MODE=16, AWAY=6)
     # the rank that lets a member speak on +m is the one the channel's configuration gives it at JOIN (all listed ranks)
-    r = l2_campaign(res, "C10", n, 45, prof, traces=sweep, oracle=lambda t, st: msg_oracle(t, st) + cfg_rank_oracle(t, st))
+    # "that user's away text": the text of the LAST AWAY it sent - replaced while away, cleared and set again, kept over a nick change
+    # (seeded C10-h: a second AWAY :text of a user who is already away was acknowledged but not stored)
+    for k2 in range(2):
+        t = Trace("c10-away-replaced-%d" % k2, Config())
+        t.register(0, "alice")
+        t.register(1, "bob")
+        t.register(2, "carol")
+        t.line(1, "AWAY :first text")
+        t.line(0, "PRIVMSG bob :are you there")
+        t.line(1, "AWAY :second text, sent while away")
+        t.line(0, "PRIVMSG bob :and now")
+        t.line(2, "PRIVMSG bob,alice :both")
+        t.line(0, "NOTICE bob :a notice is never answered")
+        if k2:
+            t.line(1, "NICK robert")
+            t.line(0, "PRIVMSG robert :renamed")
+            t.line(1, "AWAY :third")
+            t.line(0, "PRIVMSG robert :third?")
+        t.line(1, "AWAY")
+        t.line(0, "PRIVMSG %s :back" % ("robert" if k2 else "bob"))
+        t.line(1, "AWAY :again")
+        t.line(1, "AWAY :and again")
+        t.line(2, "PRIVMSG %s :last" % ("robert" if k2 else "bob"))
+        t.line(2, "WHOIS %s" % ("robert" if k2 else "bob"))
+        sweep.append(t)
+    r = l2_campaign(res, "C10", n, 45, prof, traces=sweep, oracle=lambda t, st: msg_oracle(t, st) + cfg_rank_oracle(t, st) + relay_oracle(t, st))
     res.coverage.update({
         "evaluations": r["steps"], "distinct_nontrivial": msg_distinct(r),
         "rule": "same sweep as C01 (flags {none,n,s,m,nm,ns} x banned/excepted x every rank combination x PRIVMSG and NOTICE) plus %d seeded random histories weighted to MODE "
@@ -1330,6 +1377,21 @@ def join_profile():
 
 def check_C07(res):
     sweep = c07_sweep(res) + invite_life_traces()
+    # "the key at its own position": lists of keyed channels with the keys swapped, shifted by a keyless channel, missing at the end,
+    # empty in the middle (seeded C07-i: a key was accepted from any position of the list)
+    for k2, line in enumerate(["JOIN #alpha,#beta keybeta,keyalpha", "JOIN #open,#alpha keyalpha,wrong", "JOIN #beta,#fresh ,keybeta",
+                               "JOIN #alpha,#beta keyalpha", "JOIN #alpha,#open,#beta keyalpha,x,keybeta", "JOIN #beta,#alpha keyalpha,keyalpha"]):
+        t = Trace("c07-key-position-%d" % k2, Config())
+        for c, nk in enumerate(["alice", "bob"]):
+            t.register(c, nk)
+        t.line(0, "JOIN #alpha,#beta,#open")
+        t.line(0, "MODE #alpha +k keyalpha")
+        t.line(0, "MODE #beta +k keybeta")
+        t.line(1, line)
+        t.line(0, "NAMES #alpha")
+        t.line(0, "NAMES #beta")
+        t.line(1, "JOIN #alpha,#beta keyalpha,keybeta")
+        sweep.append(t)
     n = 100 if res.tier == "quick" else 2000
     r = l2_campaign(res, "C07", n, 45, join_profile(), traces=sweep, oracle=lambda t, st: join_oracle(t, st) + inv_oracle(t, st))
     res.coverage.update({
@@ -1458,6 +1520,32 @@ def c16_traces(res):
     return traces
 
 
+def listquery_oracle(t, steps):
+    """a member who asks for a mask list (MODE ch +b / +e / +I without a mask) is shown exactly the masks that are in force - the
+    ones JOIN and speaking go by - whether they were set by MODE or come from the configuration (seeded C20-h)"""
+    fails = []
+    cm = ConnMap(t.cfg.name)
+    prev = None
+    code = {"b": ("367", "ban"), "e": ("348", "exception"), "I": ("346", "invex")}
+    for s in sorted(steps, key=lambda s: s["k"]):
+        ev = t.events[s["k"]]
+        if ev[0] == "L" and isinstance(ev[2], str) and prev is not None and not s.get("panics"):
+            m = re.match(r"^MODE ([#&][^ ,:]*) \+?([beI])$", ev[2])
+            actor = cm.nick.get(ev[1])
+            if m and actor in prev["users"]:
+                ch = prev["channels"].get(m.group(1))
+                if ch is not None and actor in ch["users"]:
+                    num, fld = code[m.group(2)]
+                    mine = (s.get("out") or {}).get(str(ev[1]), [])
+                    got = sorted(l.split(" ")[4] for l in mine if numeric_of(l) == num and len(l.split(" ")) > 4)
+                    if got != sorted(ch[fld]):
+                        fails.append(("%s by member %s lists %r, the masks in force on the channel are %r" % (ev[2], actor, got, sorted(ch[fld])), {"step": s["k"]}))
+        cm.update(s)
+        if s.get("dump"):
+            prev = s["dump"]
+    return fails
+
+
 def cfg_rank_oracle(t, steps):
     """a nick that has just become a member of a configured channel holds exactly the ranks the configuration lists for it -
     all of them when it is named in several lists (seeded C16-c, C10-g)"""
@@ -1485,7 +1573,7 @@ def cfg_rank_oracle(t, steps):
 
 
 def c16_oracle(t, steps):
-    fails = join_oracle(t, steps) + inv_oracle(t, steps)
+    fails = join_oracle(t, steps) + inv_oracle(t, steps) + listquery_oracle(t, steps)
     pre_names = set(c["name"] for c in t.cfg.channels)
     prev = None
     for s in sorted(steps, key=lambda s: s["k"]):
@@ -1668,6 +1756,36 @@ def invite_life_traces():
         t.line(2, "JOIN #club")
         t.meta = {"actor": "invite", "victim": how, "flags": "pre" if pre else ""}
         traces.append(t)
+    # "grants ONE admission": an invitation that did not admit - the JOIN was refused by the limit, by the quota or by a wrong key -
+    # is still there when the obstacle is gone (seeded C09-i: it was used up by the check, not by the admission)
+    for k2, obstacle in enumerate(["limit", "quota", "key", "limit-then-quota"]):
+        t = Trace("c09-invite-unused-%d" % k2, Config(max_joins=2))
+        for c, n2 in enumerate(["alice", "bob", "carol"]):
+            t.register(c, n2)
+        t.line(0, "JOIN #club")
+        t.line(2, "JOIN #club")
+        t.line(0, "MODE #club +i")
+        if obstacle.startswith("limit"):
+            t.line(0, "MODE #club +l 2")
+        if obstacle == "key":
+            t.line(0, "MODE #club +k sesame")
+        if obstacle.endswith("quota"):
+            t.line(1, "JOIN #x,#y")
+        t.line(0, "INVITE bob #club")
+        t.line(1, "JOIN #club wrong" if obstacle == "key" else "JOIN #club")            # refused: 471 / 405 / 475
+        t.line(1, "JOIN #club")
+        if obstacle.startswith("limit"):
+            t.line(2, "PART #club")
+        if obstacle == "limit-then-quota":
+            t.line(1, "JOIN #club")                                                     # refused again: 405
+        if obstacle.endswith("quota"):
+            t.line(1, "PART #x")
+        t.line(1, "JOIN #club sesame" if obstacle == "key" else "JOIN #club")           # the obstacle is gone: the invitation admits
+        t.line(0, "NAMES #club")
+        t.line(1, "PART #club")
+        t.line(1, "JOIN #club sesame" if obstacle == "key" else "JOIN #club")           # used up now: 473
+        t.meta = {"actor": "invite", "victim": "unused-" + obstacle, "flags": ""}
+        traces.append(t)
     return traces
 
 
@@ -1720,7 +1838,9 @@ def check_C09(res):
     n = 100 if res.tier == "quick" else 2000
     prof = {"weights": dict(KICK=18, TOPIC=10, INVITE=10, JOIN=12, MODE=14, PART=3, NICK=2, PRIVMSG=1, MISC=0.2, BAD=1),
             "max_conns": 6, "initial_conns": 4}
-    r = l2_campaign(res, "C09", n, 45, prof, traces=sweep, oracle=lambda t, st: rank_oracle(t, st) + join_oracle(t, st) + relay_oracle(t, st))
+    # the rank KICK / TOPIC / INVITE go by is, on a configured channel, the one the configuration lists for the nick - every list
+    # it stands in (seeded C09-h: only the first matching list was applied at JOIN)
+    r = l2_campaign(res, "C09", n, 45, prof, traces=sweep, oracle=lambda t, st: rank_oracle(t, st) + join_oracle(t, st) + relay_oracle(t, st) + cfg_rank_oracle(t, st))
     res.coverage.update({
         "evaluations": r["steps"], "distinct_nontrivial": len(set((t.meta["actor"], t.meta["victim"], t.meta["flags"]) for t in sweep)),
         "rule": "sweep: 32 actor rank subsets x 32 victim rank subsets (set through the configured rank lists of a preconfigured channel) with +t/+i varied, each running TOPIC, INVITE (to an "
@@ -2046,7 +2166,7 @@ def check_C08(res):
         sweep.append(t)
 
     def orc(t, steps):
-        return mode_oracle(t, steps) + rank_oracle(t, steps) + join_oracle(t, steps) + msg_oracle(t, steps) + prefix_oracle(t, steps)
+        return mode_oracle(t, steps) + rank_oracle(t, steps) + join_oracle(t, steps) + msg_oracle(t, steps) + prefix_oracle(t, steps) + listquery_oracle(t, steps)
     r = l2_campaign(res, "C08", n, 50, prof, traces=sweep, oracle=orc)
     res.coverage.update({
         "evaluations": r["steps"], "distinct_nontrivial": sum(len(t.events) for t in sweep),
@@ -2581,6 +2701,11 @@ def views_oracle(t, steps):
         if ev[0] == "L" and isinstance(ev[2], str) and prev is not None and d is not None and not s.get("panics"):
             actor = cm.nick.get(ev[1])
             mine = (s.get("out") or {}).get(str(ev[1]), [])
+            if actor in prev["users"] and mine and numeric_of(mine[0]) == "ERROR":
+                # the view of a channel that exists is never refused as a malformed command (seeded C04-h: WHO &local)
+                m = re.match(r"^(WHO|NAMES) ([#&][^ ,*?]*)$", ev[2])
+                if m and m.group(2) in prev["channels"]:
+                    fails.append(("%s %s (an existing channel) asked by %s is refused: %r" % (m.group(1), m.group(2), actor, mine[0]), {"step": s["k"]}))
             if actor in prev["users"] and not (mine and numeric_of(mine[0]) == "ERROR"):
                 me = prev["users"][actor]
                 m = re.match(r"^NAMES ([#&][^ ,]*)$", ev[2])
@@ -2800,8 +2925,25 @@ def check_C04(res):
             "p_close": 0.07, "max_conns": 6, "initial_conns": 3}
     rng = random.Random(res.seed + 4)
     probing = probing_traces(rng, "C04", n, 60, prof) + c04_kick_traces(res)
+    for k2, part in enumerate(["PART #left,#left", "PART &loc,#left,&loc :twice", "PART #left,#none,#left,&loc"]):
+        t = Trace("C04-local-repeat-%d" % k2, Config())
+        for c, nk in enumerate(["alice", "bob", "carol", "dave"]):
+            t.register(c, nk)
+        for c in range(3):
+            t.line(c, "JOIN #left,&loc,#other")
+        for viewer in (0, 3):
+            for q in ("WHO &loc", "NAMES &loc", "WHO #left", "WHOIS bob"):
+                t.line(viewer, q)
+        t.line(1, part)
+        t.line(1, "PING after")
+        for viewer in (0, 1, 3):
+            for q in ("WHO &loc", "NAMES &loc", "NAMES #left", "WHO #left", "WHO #other", "WHOIS bob"):
+                t.line(viewer, q)
+        t.line(1, "PRIVMSG #other :still here")
+        t.meta = {"victims": "", "preconfigured": False, "part": part}
+        probing.append(t)
     def orc(t, steps):
-        return views_oracle(t, steps) + inv_oracle(t, steps) + join_oracle(t, steps) + kick_announce_oracle(t, steps)
+        return views_oracle(t, steps) + inv_oracle(t, steps) + join_oracle(t, steps) + kick_announce_oracle(t, steps) + eof_oracle(t, steps)
     r = l2_campaign(res, "C04", 0, 0, prof, traces=probing, oracle=orc)
     res.coverage.update({
         "evaluations": r["steps"], "distinct_nontrivial": r["summary"]["reply_codes"].get("353", 0) + r["summary"]["reply_codes"].get("352", 0) + r["summary"]["reply_codes"].get("319", 0),
@@ -3549,6 +3691,16 @@ def check_C15(res):
         "traces_validated_against_impl": r["traces"],
         "samples": [sweep[2].describe()["events"][16:26]],
         "l2": r["summary"]})
+    # "a NICK naming a nickname held by another user is refused and changes nothing" also when the other user takes the name at the
+    # same moment: the schedule of C02 on the real binary (seeded C15-i: in-use test and rename under different lock acquisitions)
+    probs, stats = c02_nick_race(4 if res.tier == "quick" else 30)
+    if probs:
+        probs2, stats2 = c02_nick_race(4 if res.tier == "quick" else 30)
+        probs = [p_ for p_ in probs if any(re.sub(r"\d+", "#", p_)[:60] == re.sub(r"\d+", "#", q_)[:60] for q_ in probs2)]
+    for p_ in probs[:2]:
+        res.violation(p_, {"kind": "binary", "scenario": "two registered connections send NICK for one free nickname while a third connection's OPER password check holds the state lock", "stats": stats}, found=True)
+    res.coverage["nick_race_scenario"] = stats
+    res.coverage["rule"] += "; plus, on the real binary, 'two registered users ask for one free nickname at the same moment behind a busy state lock': exactly one change is carried out and announced, the other is told 433 and keeps its own nick"
 
 
 # ====================================================================== C19
@@ -3973,6 +4125,44 @@ def c13_classify(tok):
 RELAY_VERBS = ("PRIVMSG", "NOTICE", "TOPIC", "PART", "KICK", "NICK", "INVITE", "WALLOPS")
 
 
+def py_command_debug(tok):
+    """the command a well-formed line stands for, rendered like Rust's Debug, for the verbs whose parameters are taken by position"""
+    verb, ps = aupper(tok[2]), tok[3]
+    q = rust_debug_str
+    def opt(i):
+        return "Some(%s)" % q(ps[i]) if len(ps) > i else "None"
+    def lst(x):
+        return "[%s]" % ", ".join(q(y) for y in x)
+    try:
+        if verb == "TOPIC":
+            return "TOPIC { channel: %s, topic: %s }" % (q(ps[0]), opt(1))
+        if verb in ("PRIVMSG", "NOTICE"):
+            return "%s { targets: %s, text: %s }" % (verb, lst(ps[0].split(",")), q(ps[1]))
+        if verb == "KICK":
+            return "KICK { channel: %s, users: %s, comment: %s }" % (q(ps[0]), lst(ps[1].split(",")), opt(2))
+        if verb == "PART":
+            return "PART { channels: %s, reason: %s }" % (lst(ps[0].split(",")), opt(1))
+        if verb == "INVITE":
+            return "INVITE { nickname: %s, channel: %s }" % (q(ps[0]), q(ps[1]))
+        if verb == "NICK":
+            return "NICK { nickname: %s }" % q(ps[0])
+        if verb == "AWAY":
+            return "AWAY { text: %s }" % opt(0)
+        if verb == "KILL":
+            return "KILL { nickname: %s, comment: %s }" % (q(ps[0]), q(ps[1]))
+        if verb == "WHO":
+            return "WHO { mask: %s }" % q(ps[0])
+        if verb in ("ISON", "USERHOST"):
+            return "%s { nicknames: %s }" % (verb, lst(ps))
+        if verb == "WALLOPS":
+            return "WALLOPS { text: %s }" % q(ps[0])
+        if verb == "JOIN":
+            return "JOIN { channels: %s, keys: %s }" % (lst(ps[0].split(",")), "Some(%s)" % lst(ps[1].split(",")) if len(ps) > 1 else "None")
+    except IndexError:
+        return None
+    return None
+
+
 def relay_oracle(t, steps):
     """every emitted line is CRLF-terminated; a relayed command re-parsed by its receiver yields what the originator sent"""
     fails = []
@@ -4009,6 +4199,12 @@ def relay_oracle(t, steps):
                         elif verb == "TOPIC" and len(ps) >= 2:
                             if rp[:2] != [ps[0], ps[1]]:
                                 exp = repr([ps[0], ps[1]])
+                            # ... and what was relayed is what the server did: the topic it stores (and reports from then on) is the
+                            # one the receivers of the relay read (seeded C13-h)
+                            chd = (s.get("dump") or {}).get("channels", {}).get(ps[0])
+                            wantt = [ps[1], actor] if ps[1] != "" else None
+                            if exp is None and chd is not None and chd["topic"] != wantt:
+                                fails.append(("%r was relayed to the members as a change of the topic to %r, the server stores %r" % (ev[2], ps[1], chd["topic"]), {"step": s["k"]}))
                         elif verb == "PART":
                             if len(rp) < 1 or rp[0] not in ps[0].split(",") or (len(ps) >= 2 and rp[1:] != [ps[1]]) or (len(ps) < 2 and len(rp) > 1):
                                 exp = "channel in %r and reason %r" % (ps[0], ps[1:2])
@@ -4217,6 +4413,14 @@ def check_C13(res):
                 classes["executed"] += 1
                 if not body.startswith(aupper(tok[2]) + (" " if "{" in body else "")) and body != aupper(tok[2]):
                     bad = "is parsed as %s, the verb is %s" % (body, aupper(tok[2]))
+                else:
+                    # ... executed as named WITH ITS OWN PARAMETERS: for the verbs whose parameters are positional the command carries the
+                    # first parameters of the line in order, surplus ones are ignored (seeded C13-h: TOPIC took the last parameter)
+                    wantc = py_command_debug(tok)
+                    if wantc is not None and body != wantc:
+                        bad = "is parsed as %s, its parameters in order give %s" % (body, wantc)
+                    elif wantc is not None:
+                        classes["parameters-checked"] += 1
             elif a.startswith("CERR "):
                 kind = body.split("(")[0].split(" ")[0]
                 classes["invalid-" + kind] += 1
@@ -4986,10 +5190,24 @@ def check_C20(res):
     ntr = 40 if res.tier == "quick" else 500
     def cfg_oracle(t, steps):
         # the settings must govern behaviour: welcome burst, and max_joins / predefined channels through the admission rule and the membership relation
-        return welcome_oracle(t, steps) + join_oracle(t, steps) + inv_oracle(t, steps) + registered_oracle(t, steps)
+        return welcome_oracle(t, steps) + join_oracle(t, steps) + inv_oracle(t, steps) + registered_oracle(t, steps) + listquery_oracle(t, steps)
     # max_connections governs how many connections are served at once - and keeps doing so after refusals, closes and
     # failed registrations (the slot histories of C19, under this property's oracle)
     slot_traces = c19_slot_traces(res)
+    # the mask lists of a configured channel govern JOIN and are shown to a member who asks, next to masks added by MODE
+    for k2 in range(2):
+        t = Trace("c20-configured-lists-%d" % k2, Config(channels=[dict(name="#cfg", topic="Configured", flags="nt" if k2 == 0 else "int",
+                                                                      ban=["bad*!*@*", "*!*@10.*"], exception=["badger!*@*"], invex=["friend*!*@*"])]))
+        for c, nk in enumerate(["alice", "baddie", "badger", "friendly"]):
+            t.register(c, nk)
+        for c in range(4):
+            t.line(c, "JOIN #cfg")
+        for q in ("+b", "b", "+e", "+I"):
+            t.line(0 if k2 == 0 else 3, "MODE #cfg " + q)
+        t.line(2, "MODE #cfg +b")
+        t.line(2 if k2 == 0 else 3, "MODE #cfg +b extra!*@*")
+        t.line(2, "MODE #cfg +b")
+        slot_traces.append(t)
     r = l2_campaign(res, "C20", ntr, 40, prof, traces=slot_traces, oracle=cfg_oracle)
     res.coverage.update({
         "evaluations": len(cases) + len(hs_) + len(ver) + len(started) + r["steps"],
